@@ -222,6 +222,16 @@ class Interp:
                 del cache[name]
                 raise
             cache[name] = v
+            if isinstance(v, FuncVal):
+                # module-level `f.attr = value` statements (function attributes such as the `terminal` flag of an ODE event)
+                tree = getattr(module, "tree", None)
+                for st2 in (tree.body if tree is not None else []):
+                    if isinstance(st2, ast.Assign) and len(st2.targets) == 1 and isinstance(st2.targets[0], ast.Attribute) \
+                            and isinstance(st2.targets[0].value, ast.Name) and st2.targets[0].value.id == name:
+                        try:
+                            v.attrs[st2.targets[0].attr] = self.ev(st2.value, Env(module))
+                        except Unsupported:
+                            pass
             return v
         if name in module.imports:
             v = self._resolve_import(module, module.imports[name])
@@ -1147,6 +1157,7 @@ class Interp:
                 return
             if isinstance(obj, FuncVal):
                 self.emit("setattr-func", (obj.qualname, t.attr, v), t, env)
+                obj.attrs[t.attr] = v
                 return
             if isinstance(obj, MaskedArray) and t.attr == "fill_value":
                 obj.fill_value = v
@@ -1726,14 +1737,25 @@ class Interp:
                     out = np.empty(aa.shape, dtype=object)
                     for i in np.ndindex(*aa.shape):
                         x, y = lift(cell(aa[i])), lift(cell(bb[i]))
-                        if not (x.is_int() and y.is_int()):
-                            raise Unsupported(f"{name} of symbolic array cells", node)
-                        out[i] = lift(int(x.cval()) % int(y.cval()) if name == "Mod" else int(x.cval()) // int(y.cval()))
+                        if x.is_int() and y.is_int():
+                            out[i] = lift(int(x.cval()) % int(y.cval()) if name == "Mod" else int(x.cval()) // int(y.cval()))
+                        else:
+                            out[i] = self.real_mod(name, x, y, node)
                     return out
+                if isinstance(a, E) and isinstance(b, E):
+                    return self.real_mod(name, a, b, node)
         except ZeroDivisionError:
             self.emit("zerodiv", (keyof(b),), node, env)
             raise RaiseSig(ExcVal("ZeroDivisionError", node=node))
         raise Unsupported(f"binary op {name} on {type(a).__name__}, {type(b).__name__}", node)
+
+    def real_mod(self, name, x, y, node):
+        """x // y and x % y over the reals for a divisor of known sign: floor(x / y) and x - y*floor(x / y) (the sign of the result follows
+        the divisor, as in Python and NumPy); the floor is an interpreted atom with its jumps at the integers"""
+        if y.is_const() and y.cval() == 0:
+            raise ZeroDivisionError
+        q = alg.Fn("floor", x / y)
+        return q if name == "FloorDiv" else x - y * q
 
     def power(self, a, b, node):
         if isinstance(a, np.ndarray) or isinstance(b, np.ndarray):
@@ -1905,6 +1927,10 @@ class Interp:
                         return v
                     return BoundMethod(base, v)
                 return v
+            if "_fields" not in base.attrs and getattr(base, "label", None):
+                # a stand-in for a library object (archive, file handle, generator ...): an attribute the stand-in lacks is a gap of the
+                # model, not an AttributeError of the program
+                raise Unsupported(f"attribute '{attr}' of the model of a {base.label} object", n)
             raise RaiseSig(ExcVal("AttributeError", args=(attr,), node=n))
         if isinstance(base, ClassVal):
             if attr == "__qualname__" or attr == "__name__":
@@ -1927,6 +1953,8 @@ class Interp:
         if isinstance(base, FuncVal):
             if attr in ("__name__", "__qualname__"):
                 return base.name
+            if attr in base.attrs:
+                return base.attrs[attr]
         if isinstance(base, ExcVal):
             if attr == "args":
                 return base.args
@@ -2030,10 +2058,15 @@ def _dotted(n):
 
 
 def _is_generator(fn):
-    for node in ast.walk(fn):
+    """a yield in the function's own body (not in a nested def, lambda or class)"""
+    todo = list(fn.body)
+    while todo:
+        node = todo.pop()
         if isinstance(node, (ast.Yield, ast.YieldFrom)):
-            # ignore nested defs
             return True
+        if isinstance(node, (ast.FunctionDef, ast.AsyncFunctionDef, ast.Lambda, ast.ClassDef)):
+            continue
+        todo.extend(ast.iter_child_nodes(node))
     return False
 
 
